@@ -33,6 +33,9 @@ def coqchk_step(chk, prop):
         chk.extra['coqchk'] = 'timeout'
         return
     ax = re.findall(r'^\s+([\w.]+)\s*$', out.split('Axioms:')[-1], re.M) if 'Axioms:' in out else []
+    # axioms allow-listed by name for theorems of this property (props/C13_f32.v: the standard library's real-number axioms)
+    allowed = set(a for n in wvlib.theorem_names(prop) for a in wvlib.ALLOWED_AXIOMS.get(n, []))
+    ax = [a for a in ax if a not in allowed and a.split('.')[-1] not in set(x.split('.')[-1] for x in allowed)]
     ok = rc == 0 and ('Axioms: <none>' in out.replace('\n', ' ') or not ax)
     chk.oblig('coqchk -o re-check of props/%s.vo and its closure' % prop, ok, out[-600:])
     if not ok:
@@ -981,7 +984,9 @@ def forced_schedule_cases(rnd, sel, n, depths=(1, 2, 2, 3)):
         sched = ','.join(str(rnd.randrange(1 << 20)) for _ in range(L)) or '-'
         chain = f if rnd.random() < 0.6 or not small else '|'.join([f, rnd.choice(small)])
         nt, nb = rnd.choice([(1, 1), (2, 16), (4, 64), (1, 4)])
-        out.append('msearch\t%d\t%d\t%d\t%d\t%d\t%d\t-\t%s\t%s' % (rnd.randrange(1 << 30), rnd.randrange(1 << 50), d, nw, nt, nb, sched, chain))
+        # a third of the cases with recorded positions (history draws inside the workers)
+        hist = '|'.join(rnd.sample(small, min(len(small), rnd.randrange(1, 4)))) if small and rnd.random() < 0.33 else '-'
+        out.append('msearch\t%d\t%d\t%d\t%d\t%d\t%d\t%s\t%s\t%s' % (rnd.randrange(1 << 30), rnd.randrange(1 << 50), d, nw, nt, nb, hist, sched, chain))
     return out
 
 def check_C03(chk, binp):
